@@ -156,3 +156,53 @@ Proof.
   pose proof (invalid_extension_reported s g0 Hi Hbad) as Hv.
   destruct (validate_extensions g0 (s_exts s)); [congruence|reflexivity].
 Qed.
+
+(* ---------- `extend schema { operation: Type }` ---------- *)
+(* an extension naming an operation whose root type is already defined is reported ... *)
+Lemma schema_ext_ops_defined g ops extended k v :
+  In (k, v) ops -> g_has_type g (op_name_of g k) = true -> fst (schema_ext_ops g ops extended) <> [].
+Proof.
+  revert extended. induction ops as [|[k0 v0] r IH]; intros extended Hin Hdef; [contradiction|].
+  cbn [schema_ext_ops]. destruct Hin as [Heq|Hin].
+  - injection Heq as -> ->. rewrite Hdef. destruct (schema_ext_ops g r extended) as [es x]. cbn [fst].
+    apply app_nonnil_r. discriminate.
+  - destruct (g_has_type g (op_name_of g k0)).
+    + destruct (schema_ext_ops g r extended) as [es x] eqn:E. cbn [fst]. apply app_nonnil_r. discriminate.
+    + pose proof (IH (extended ++ [op_name_of g k0]) Hin Hdef) as H.
+      destruct (schema_ext_ops g r (extended ++ [op_name_of g k0])) as [es x]. cbn [fst] in *. now apply app_nonnil_r.
+Qed.
+
+(* ... and so is an operation extended a second time *)
+Lemma schema_ext_ops_twice g ops extended k v :
+  In (k, v) ops -> In (op_name_of g k) extended -> fst (schema_ext_ops g ops extended) <> [].
+Proof.
+  revert extended. induction ops as [|[k0 v0] r IH]; intros extended Hin Hext; [contradiction|].
+  cbn [schema_ext_ops]. destruct Hin as [Heq|Hin].
+  - injection Heq as -> ->. assert (Hm : mem_str (op_name_of g k) extended = true) by now apply mem_str_iff.
+    rewrite Hm. destruct (g_has_type g (op_name_of g k)).
+    + destruct (schema_ext_ops g r extended) as [es x]. cbn [fst]. apply app_nonnil_l. discriminate.
+    + destruct (schema_ext_ops g r (extended ++ [op_name_of g k])) as [es x]. cbn [fst]. apply app_nonnil_l. discriminate.
+  - destruct (g_has_type g (op_name_of g k0)).
+    + pose proof (IH extended Hin Hext) as H. destruct (schema_ext_ops g r extended) as [es x]. cbn [fst] in *.
+      apply app_nonnil_r, app_nonnil_r. exact H.
+    + assert (Hext' : In (op_name_of g k) (extended ++ [op_name_of g k0])) by (apply in_or_app; now left).
+      pose proof (IH _ Hin Hext') as H. destruct (schema_ext_ops g r (extended ++ [op_name_of g k0])) as [es x]. cbn [fst] in *.
+      now apply app_nonnil_r.
+Qed.
+
+Theorem schema_operation_redefinition_refused s g0 ops dirs k v :
+  initial s = inl g0 -> In (XSchema ops dirs) (s_exts s) -> In (k, v) ops -> g_has_type g0 (op_name_of g0 k) = true ->
+  builds s = false.
+Proof.
+  intros Hi Hin Hk Hdef. unfold builds, impl_build. rewrite Hi.
+  assert (Hv : validate_extensions g0 (s_exts s) <> []).
+  { rewrite validate_extensions_unfold. do 6 apply app_nonnil_r.
+    assert (Hgen : forall exts acc, In (XSchema ops dirs) exts -> fst (fold_left (schema_step g0) exts acc) <> []).
+    { induction exts as [|e exts IH]; intros acc Hi'; [contradiction|]. cbn [fold_left].
+      destruct Hi' as [->|Hi']; [|now apply IH].
+      apply schema_fold_mono. cbn [schema_step]. destruct acc as [errs extended].
+      pose proof (schema_ext_ops_defined g0 ops extended k v Hk Hdef) as H.
+      destruct (schema_ext_ops g0 ops extended) as [es x]. cbn [fst] in *. apply app_nonnil_r, app_nonnil_l. exact H. }
+    now apply Hgen. }
+  destruct (validate_extensions g0 (s_exts s)); [congruence|reflexivity].
+Qed.
